@@ -309,13 +309,40 @@ Definition run_hop (c : config) (st : filer) (h : hop) (w : world) : res unit * 
     end
   end.
 
-Fixpoint run_hops (c : config) (st : filer) (hs : list hop) (w : world)
-  : list (res unit * option path * fsys) :=
+(* ---- a FilerDoer around the Filer: enter(temp) = "if not filer.opened: filer.reopen(temp=temp)",
+   exit = filer.close(clear=filer.temp).  .opened is tracked on top of the object state: close and a
+   raising reopen leave it False, a reopen that returns sets it True ---- *)
+Inductive hop2 :=
+| H (h : hop)
+| HDoerEnter (temp : option bool)
+| HDoerExit.
+
+Definition opened_after (h : hop) (r : res unit) (was : bool) : bool :=
+  match h with
+  | HClose _ | HExit _ => false
+  | HReopen _ _ _ _ _ => match r with Ok _ => true | Exc _ => false end
+  | HRemake _ _ _ _ _ _ _ => was
+  end.
+
+Definition enter_hop (temp : option bool) : hop := HReopen temp None false false false.
+
+Definition run_hop2 (c : config) (st : filer) (opened : bool) (h : hop2) (w : world)
+  : res unit * filer * bool * world :=
+  match h with
+  | H h' => let '(r, st', w') := run_hop c st h' w in (r, st', opened_after h' r opened, w')
+  | HDoerEnter temp =>
+    if opened then (Ok tt, st, opened, w)
+    else let '(r, st', w') := run_hop c st (enter_hop temp) w in (r, st', opened_after (enter_hop temp) r opened, w')
+  | HDoerExit => let '(r, st', w') := run_hop c st (HExit false) w in (r, st', false, w')
+  end.
+
+Fixpoint run_hops (c : config) (st : filer) (opened : bool) (hs : list hop2) (w : world)
+  : list (res unit * option path * bool * fsys) :=
   match hs with
   | [] => []
   | h :: hs' =>
-    let '(r, st', w') := run_hop c st h w in
-    (r, f_path st', w_fs w') :: run_hops c st' hs' w'
+    let '(r, st', op', w') := run_hop2 c st opened h w in
+    (r, f_path st', f_temp st', w_fs w') :: run_hops c st' op' hs' w'
   end.
 
 (* ---- correspondence: Filer(...) on a sandbox snapshot, an optional owner
@@ -327,8 +354,8 @@ Record case := { k_cfg : config;
                  k_owner : nat;
                  k_clear : res unit;                (* result of close(clear=True) *)
                  k_post : fsys;                     (* snapshot after it *)
-                 k_hops : list hop;                 (* history after the constructor (then no owner/clear phase) *)
-                 k_hobs : list (res unit * option path * fsys) }.   (* result, .path, snapshot after every hop *)
+                 k_hops : list hop2;                (* history after the constructor (then no owner/clear phase) *)
+                 k_hobs : list (res unit * option path * bool * fsys) }.   (* result, .path, .temp, snapshot after every call *)
 
 Definition entry_eqb (a b : path * bool) : bool := path_eqb (fst a) (fst b) && Bool.eqb (snd a) (snd b).
 Definition subset_fs (a b : fsys) : bool := forallb (fun e => existsb (entry_eqb e) b) a.
@@ -344,9 +371,10 @@ Definition owner_step (n : nat) (p : path) (w : world) : world :=
 
 Definition unit_eqb (a b : unit) : bool := true.
 
-Definition hob_eqb (a b : res unit * option path * fsys) : bool :=
+Definition hob_eqb (a b : res unit * option path * bool * fsys) : bool :=
   match a, b with
-  | (r, p, fs), (r', p', fs') => res_eqb unit_eqb r r' && option_eqb path_eqb p p' && same_fs fs fs'
+  | (r, p, t, fs), (r', p', t', fs') =>
+    res_eqb unit_eqb r r' && option_eqb path_eqb p p' && Bool.eqb t t' && same_fs fs fs'
   end.
 
 Definition check_case (k : case) : bool :=
@@ -360,29 +388,36 @@ Definition check_case (k : case) : bool :=
       let w2 := owner_step (k_owner k) p w1 in
       let (r2, w3) := clear (k_cfg k) p w2 in
       res_eqb unit_eqb r2 (k_clear k) && same_fs (w_fs w3) (k_post k)
-    | hs => list_eqb hob_eqb (run_hops (k_cfg k) (born (k_cfg k) p) hs w1) (k_hobs k)
+    | hs => list_eqb hob_eqb (run_hops (k_cfg k) (born (k_cfg k) p) true hs w1) (k_hobs k)
     end
   end.
 
 (* branch classifier *)
-Fixpoint hop_branches (c : config) (st : filer) (hs : list hop) (w : world) : list nat :=
+Definition hop_branch (st st' : filer) (w w' : world) (h : hop) (r : res unit) : nat :=
+  match h, r with
+  | HExit _, Exc _ => 29
+  | HExit _, _ => if f_temp st then 32 else 33
+  | HRemake _ _ _ _ _ _ _, Exc _ => 31
+  | HRemake _ _ _ _ _ _ _, _ => 30
+  | _, Exc _ => 29
+  | HClose true, _ => 27
+  | HClose false, _ => 28
+  | HReopen _ _ cl _ _, _ =>
+    if option_eqb path_eqb (f_path st) (f_path st') && Nat.eqb (length (w_log w)) (length (w_log w')) then 23
+    else if Bool.eqb (f_temp st) (f_temp st') then 24
+    else if f_temp st' then 25 else 26
+  end.
+
+Fixpoint hop_branches (c : config) (st : filer) (opened : bool) (hs : list hop2) (w : world) : list nat :=
   match hs with
   | [] => []
   | h :: hs' =>
-    let '(r, st', w') := run_hop c st h w in
-    (match h, r with
-     | HExit _, Exc _ => 29
-     | HExit _, _ => if f_temp st then 32 else 33
-     | HRemake _ _ _ _ _ _ _, Exc _ => 31
-     | HRemake _ _ _ _ _ _ _, _ => 30
-     | _, Exc _ => 29
-     | HClose true, _ => 27
-     | HClose false, _ => 28
-     | HReopen _ _ cl _ _, _ =>
-       if option_eqb path_eqb (f_path st) (f_path st') && Nat.eqb (length (w_log w)) (length (w_log w')) then 23
-       else if Bool.eqb (f_temp st) (f_temp st') then 24
-       else if f_temp st' then 25 else 26
-     end) :: hop_branches c st' hs' w'
+    let '(r, st', op', w') := run_hop2 c st opened h w in
+    (match h with
+     | H h' => hop_branch st st' w w' h' r
+     | HDoerEnter _ => if opened then 34 else 35
+     | HDoerExit => if f_temp st then 36 else 37
+     end) :: hop_branches c st' op' hs' w'
   end.
 
 Definition case_branches (k : case) : list nat :=
@@ -402,8 +437,8 @@ Definition case_branches (k : case) : list nat :=
   | Ok p =>
     match k_hops k with
     | [] => [match fst (clear c p (owner_step (k_owner k) p w1)) with Exc _ => 21 | Ok _ => 22 end]
-    | hs => hop_branches c (born c p) hs w1
+    | hs => hop_branches c (born c p) true hs w1
     end
   | Exc _ => []
   end.
-Definition n_branches : nat := 34.
+Definition n_branches : nat := 38.
